@@ -7,7 +7,8 @@ TECHNIQUE = 'deductive verification with a byte-string algebra (concatenation no
 LEVEL_TEXT = ('Byte strings built by struct.pack / BytesIO.write in the real functions are compared atom by atom with the wire image written in the sidecar from the mux protocol description, for all tags, types, lengths and texts: '
               '_BuildHeader = i32(4+n) ++ i8(type) ++ u24(tag) (three single bytes merged arithmetically into the 24-bit tag); the frame queued by the mux transport = that header for len(body) followed by exactly the body; '
               'ReadHeader inverts the writer for every type in [-128,127] and tag in [0,2^24); a discard body = u24(tag) ++ utf8(reason); a dispatch body = context block ++ i16(0) ++ i16(0) ++ thrift call, '
-              'the context being the public properties overlaid with the headers, each key and value preceded by its exact UTF-8 byte length and a Deadline written as 16 bytes of two int64. struct.error / TypeError are obligations, not crashes.')
+              'the context being the public properties overlaid with the headers, each key and value preceded by its exact UTF-8 byte length and a Deadline written as 16 bytes of two int64. struct.error / TypeError are obligations, not crashes.'
+              ' The serializer sink forwards a fresh buffer per call (see C02); a ping is queued for the send loop and never written to the socket by the ping sender itself.')
 LEVEL_NOTE = ('Trusted: pyvc byte algebra (pyvc/bytesalg.py), z3; struct\'s big-endian fixed-width packing as encoded there; str.encode(\'utf-8\') as an opaque function with len(utf8(s)) >= len(s); '
               'the Thrift call bytes are opaque (C14); Message.public_properties is taken as a given dictionary (its comprehension is not verified); the per-entry claims of the context loop are per iteration, '
               'the concatenation over the dictionary\'s iteration order is the loop itself; _ReadContext/_Unmarshal_Rdispatch (reply side) are not under contract in this version. Stated ranges: every text <= 32767 UTF-8 bytes, <= 32767 entries, int64 deadlines.')
